@@ -104,7 +104,7 @@ Fixpoint spellings_of (name : str) (l : list (str * list str)) : list str :=
   match l with [] => [] | (n, ss) :: r => if str_eqb n name then ss else spellings_of name r end.
 
 Definition specified_ok (d : decl) (s : str) (impl : sx) : bool :=
-  if mem_str s (spellings_of (d_name d) spec_spellings) then
+  if mem_str s (spellings_of (d_name d) (spec_spellings ++ spec_event_types)) then
     match impl with
     | SL [SN 0; SL (idx :: SS disp :: _)] =>
         match as_nat idx with
